@@ -160,8 +160,80 @@ def run(ctx):
            "radius.shape[0] != coord.shape[0]" in pt and "(radius < 0).any()" in pt and "if radius < 0:" in pt,
            "per-query radii must match the number of queries and be non-negative", pv.lineno)
 
+    query_rules(ctx, s)
+
+
+def query_rules(ctx, s):
+    """R4: the query itself - which atoms are returned (beyond memory safety)"""
+    from ..exprnorm import check_spec, summarize
+    fa = s.func("CellList._find_adjacent_atoms")
+    ga = s.func("CellList.get_atoms")
+    # ---- the distance filter keeps an atom iff its squared distance does not exceed the squared radius
+    keep = [st for st in walk_local(ga) if isinstance(st, ast.Assign) and isinstance(st.targets[0], ast.Subscript)
+            and same_expr(st.targets[0].value, "indices") and same_expr(st.value, "coord_index")]
+    ctx.need(len(keep) == 1, "store of a kept atom index in get_atoms")
+    known = facts.facts_at(ga, keep[0])
+    defs = {}
+    for st in walk_local(ga):
+        if isinstance(st, ast.Assign) and len(st.targets) == 1 and isinstance(st.targets[0], ast.Name):
+            defs.setdefault(st.targets[0].id, []).append(st.value)
+    one = lambda n_: defs[n_][0] if len(defs.get(n_, [])) == 1 else None
+    geometry = same_expr(one("sq_dist"), "squared_distance(x1, y1, z1, x2, y2, z2)") \
+        and all(same_expr(one(f"{ax}1"), f"coord_v[i, {k}]") and same_expr(one(f"{ax}2"), f"self._coord[coord_index, {k}]") for k, ax in enumerate("xyz")) \
+        and same_expr(one("sq_radius"), "sq_radii[i]") and same_expr(one("coord_index"), "all_indices[i, j]") and same_expr(one("coord_v"), "coord")
+    ctx.ob("R4.distance-filter", CL, "CellList.get_atoms", "kept iff squared_distance(query i, atom) <= sq_radii[i]",
+           spec("sq_dist <= sq_radius") in known and spec("coord_index != -1") in known and geometry,
+           "an atom is returned exactly when its distance to the query point does not exceed the radius (<=, measured between query i "
+           "and the stored coordinates of the candidate)", keep[0].lineno)
+    sq = [v for v in defs.get("sq_radii", [])]
+    ctx.ob("R4.distance-filter", CL, "CellList.get_atoms", "sq_radii = radius * radius (per query, or the one radius for all)",
+           len(sq) == 2 and any(same_expr(v, "radius * radius") for v in sq)
+           and any(same_expr(v, "np.full(len(coord), radius[0] * radius[0], dtype=np.float32)") for v in sq),
+           "the threshold compared with the squared distance is the square of the query's radius", ga.lineno)
+    # ---- periodic lists: each public query wraps ITS coordinates into the box first, so that the cell search and the distance
+    # measurement see the same point
+    for q in ("CellList.get_atoms", "CellList.get_atoms_in_cells"):
+        f = s.func(q)
+        cpar = param_names(f)[1]
+        wraps = [k for k, st in enumerate(f.body) if isinstance(st, ast.If) and same_expr(st.test, "self._periodic") and not st.orelse
+                 and len(st.body) == 1 and isinstance(st.body[0], ast.Assign) and same_expr(st.body[0].targets[0], cpar)
+                 and same_expr(st.body[0].value, f"move_inside_box({cpar}, self._box)")]
+        first_use = min([k for k, st in enumerate(f.body) if any(isinstance(x, ast.Name) and x.id == cpar and isinstance(x.ctx, ast.Load) for x in ast.walk(st))
+                         and not (isinstance(st, ast.If) and st.body and isinstance(st.body[-1], ast.Return))] or [10 ** 6])
+        ctx.ob("R4.periodic-query-wrapped", CL, q, f"if self._periodic: {cpar} = move_inside_box({cpar}, self._box) before any other use",
+               len(wraps) == 1 and wraps[0] <= first_use,
+               "with periodicity the query point is moved into the box in the public method itself: the cell search and the distance filter "
+               "must work on the same (wrapped) coordinates", f.lineno)
+    # ---- candidate buffer: sized by the largest radius of the call, never capped
+    gc = s.func("CellList._get_atoms_in_cells")
+    check_spec(ctx, "R4.candidate-buffer", CL, "CellList._get_atoms_in_cells",
+               "(2 * (np.max(cell_radii) if is_multi_radius else cell_radii[0]) + 1) ** 3 * self._max_cell_length",
+               "the candidate buffer holds (2 r + 1)^3 cells of at most _max_cell_length atoms with r the LARGEST radius of the call "
+               "(per-query radii: the maximum; one radius: that radius); _find_adjacent_atoms writes into it unchecked", var="length")
+    # ---- every finite query position is searched
+    pos_loops = [lp for lp in walk_local(fa) if isinstance(lp, ast.For) and same_expr(lp.iter, "range(coord.shape[0])")]
+    ctx.need(len(pos_loops) == 1, "position loop of _find_adjacent_atoms")
+    pl = pos_loops[0]
+    inner = {id(x) for lp in ast.walk(pl) if isinstance(lp, (ast.For, ast.While)) and lp is not pl for x in ast.walk(lp)}
+    skips = [st for st in ast.walk(pl) if isinstance(st, ast.If) and id(st) not in inner
+             and any(isinstance(b, (ast.Continue, ast.Break, ast.Return)) for b in ast.walk(st) if id(b) not in inner)]
+    ctx.ob("R4.every-position-searched", CL, "CellList._find_adjacent_atoms", f"{len(skips)} early way(s) out of the position loop",
+           len(skips) == 1 and same_expr(skips[0].test, f"not finite_mask[{pl.target.id}]"),
+           "only non-finite query points are skipped: a point outside the grid (or outside the bounding box of the atoms) still has "
+           "neighbours within its radius", pl.lineno)
+
 
 MUTANTS = [
+    Mutant("distance-filter-strict", CL, "                    if sq_dist <= sq_radius:\n", "                    if sq_dist < sq_radius:\n", "R4.distance-filter"),
+    Mutant("distance-to-first-query", CL, "            x1 = coord_v[i,0]\n", "            x1 = coord_v[0,0]\n", "R4.distance-filter"),
+    Mutant("buffer-radius-branches-swapped", CL, "        if is_multi_radius:\n            max_cell_radius = np.max(cell_radii)\n        else:\n            # All radii are equal\n            max_cell_radius = cell_radii[0]\n",
+           "        if is_multi_radius:\n            max_cell_radius = cell_radii[0]\n        else:\n            max_cell_radius = np.max(cell_radii)\n", "R4.candidate-buffer"),
+    Mutant("buffer-capped-at-atom-count", CL, "        array_indices = np.full((len(coord), length), -1, dtype=np.int32)\n",
+           "        if length > self._orig_length:\n            length = self._orig_length\n        array_indices = np.full((len(coord), length), -1, dtype=np.int32)\n", "R4.candidate-buffer"),
+    Mutant("outside-grid-skipped", CL, "            z = coord[pos_i, 2]\n            self._get_cell_index(x, y, z, &i, &j, &k)\n",
+           "            z = coord[pos_i, 2]\n            self._get_cell_index(x, y, z, &i, &j, &k)\n            if i < 0 or i >= cells.shape[0]:\n                continue\n", "R4.every-position-searched"),
+    Mutant("get-atoms-wrap-dropped", CL, "        # Handle periodicity for the input coordinates\n        if self._periodic:\n            coord = move_inside_box(coord, self._box)\n        # Convert input parameters into a uniform format\n        coord, radius,",
+           "        # Convert input parameters into a uniform format\n        coord, radius,", "R4.periodic-query-wrapped", "CellList.get_atoms"),
     Mutant("wrong-axis", CL, "if (adj_j >= 0 and adj_j < cells.shape[1]):", "if (adj_j >= 0 and adj_j < cells.shape[0]):", "R1.cell-access-guarded"),
     Mutant("lower-bound-dropped", CL, "if (adj_k >= 0 and adj_k < cells.shape[2]):", "if (adj_k < cells.shape[2]):", "R1.cell-access-guarded"),
     Mutant("modulo-after-mask", CL, "            indices[indices != -1] %= self._orig_length\n", "            pass\n", "R3.periodic-modulo-before-mask"),
